@@ -206,6 +206,40 @@ def rule_add_all_locations(ctx, rep):
     rep.check("R-ADD-ALL-LOCATIONS", fn.qname, fn.loc(), ok, "loop", "add_result does not file the result under every (rule_id, location.file)")
 
 
+def rule_merge_no_alias(ctx, rep):
+    rep.rule(
+        "R-MERGE-NO-ALIAS",
+        "the ResultSet merge stores freshly built containers (the result of list_dict_or / a new list) and never mutates or adopts an "
+        "operand's inner dict or list: result sets returned by the memoised from_json loaders would otherwise be changed by a later merge",
+        min_instances=3,
+    )
+    mod = ctx.prog.module("codemodder.result")
+    for q in ("codemodder.result.ResultSet.__or__", "codemodder.result.ResultSet.__ior__", "codemodder.result.list_dict_or"):
+        fn = ctx.prog.functions.get(q)
+        if fn is None:
+            continue
+        params = [p_ for p_ in fn.params() if p_ != "self"]
+        problems = []
+        for n in walk_no_nested(fn.node):
+            # adopting an operand's value by reference: self[k] = v  where v iterates other.items()
+            if isinstance(n, ast.Assign) and isinstance(n.targets[0], ast.Subscript):
+                v = n.value
+                fresh = isinstance(v, ast.Call) or isinstance(v, ast.BinOp) or isinstance(v, (ast.List, ast.Dict, ast.ListComp, ast.DictComp))
+                if not fresh:
+                    problems.append(f"`{unparse(n)[:50]}` stores an operand's container by reference")
+            # in-place mutation of something reachable from an operand
+            if isinstance(n, ast.Call) and isinstance(n.func, ast.Attribute) and n.func.attr in ("extend", "append", "update", "setdefault", "insert"):
+                base = n.func.value
+                root = base
+                while isinstance(root, (ast.Attribute, ast.Subscript, ast.Call)):
+                    root = root.value if not isinstance(root, ast.Call) else root.func
+                # result containers created in this function are fine
+                created = {t.id for a in walk_no_nested(fn.node) if isinstance(a, ast.Assign) for t in a.targets if isinstance(t, ast.Name)}
+                if isinstance(root, ast.Name) and root.id not in created:
+                    problems.append(f"`{unparse(n)[:50]}` mutates a container of an operand in place")
+        rep.check("R-MERGE-NO-ALIAS", q, fn.loc(), not problems, "fresh-containers", "; ".join(problems))
+
+
 def check(ctx, rep):
     rep.explanation = (
         "The operator each accumulation loop actually dispatches to is resolved through the ResultSet MRO (including the "
@@ -217,4 +251,5 @@ def check(ctx, rep):
     rule_or_precedence(ctx, rep)
     rule_reader_shape(ctx, rep)
     rule_add_all_locations(ctx, rep)
+    rule_merge_no_alias(ctx, rep)
     rep.not_covered += ["equality of parsed findings with a reference extraction for arbitrary documents", "SARIF tool detection per run"]
